@@ -498,6 +498,37 @@ pub fn run_async_hostile(cfgs: &[String], out_dir: &Path) -> Value {
         run!("remove_dir_all(d3)".to_string(), root.join("d3").unwrap().remove_dir_all());
         run!("remove_dir_all(root)".to_string(), root.remove_dir_all());
         run!("walk_dir(root) again".to_string(), count_walk(&root));
+        // the same kind of calls driven by an executor that is NOT tokio (async-std's): the library may not
+        // assume a particular runtime is running
+        {
+            let w2 = abuild(cfg, false);
+            let r2 = w2.root.clone();
+            macro_rules! run2 {
+                ($name:expr, $fut:expr) => {{
+                    let r = guard(|| async_std::task::block_on(async { $fut.await }));
+                    rec(&format!("[async-std executor] {}", $name), cls(r));
+                }};
+            }
+            run2!("create_dir(d)", async { r2.join("d")?.create_dir().await });
+            run2!("create_file(f)", put(&r2.join("f").unwrap(), false));
+            run2!("append_file(f)", put(&r2.join("f").unwrap(), true));
+            run2!("open_file(f)", slurp(&r2.join("f").unwrap()));
+            run2!("metadata(f)", r2.join("f").unwrap().metadata());
+            run2!("set_mtime(f)", r2.join("f").unwrap().set_modification_time(tick(2)));
+            run2!("set_atime(f)", r2.join("f").unwrap().set_access_time(tick(3)));
+            run2!("set_ctime(f)", r2.join("f").unwrap().set_creation_time(tick(4)));
+            run2!("set_mtime(d)", r2.join("d").unwrap().set_modification_time(tick(2)));
+            run2!("set_mtime(missing)", r2.join("missing").unwrap().set_modification_time(tick(2)));
+            run2!("read_dir(root)", count_dir(&r2));
+            run2!("walk_dir(root)", count_walk(&r2));
+            run2!("copy_file(f->g)", r2.join("f").unwrap().copy_file(&r2.join("g").unwrap()));
+            run2!("move_file(g->h)", r2.join("g").unwrap().move_file(&r2.join("h").unwrap()));
+            run2!("copy_dir(d->d2)", r2.join("d").unwrap().copy_dir(&r2.join("d2").unwrap()));
+            run2!("move_dir(d2->d3)", r2.join("d2").unwrap().move_dir(&r2.join("d3").unwrap()));
+            run2!("remove_file(h)", r2.join("h").unwrap().remove_file());
+            run2!("remove_dir_all(d3)", r2.join("d3").unwrap().remove_dir_all());
+            run2!("exists(f)", r2.join("f").unwrap().exists());
+        }
         out.begin(&json!({"ev":"hostile","kindtag":"ahostile","cfg":format!("async:{cfg}"),"arg":"<async port: hostile directory content, operations on the root, wrong-typed targets>","prefix":[],
             "join":{"c":"ok","path":""},"ops":ops,"ucalls":[],"outside_before":[],"outside_after":[],"leak":false,"shape":{"dotdot":false,"dslash":false,"abs":false}}));
         n += 1;
